@@ -45,7 +45,7 @@ func main() {
 			fmt.Println(p.Name)
 		}
 	case "reload-pilot":
-		err = l1.ReloadPilot(os.Stdout, scratchDir(""))
+		err = l1.ReloadPilot(os.Stdout, scratchDir(""), len(os.Args) > 2 && os.Args[2] == "-rev")
 	case "reload-run":
 		err = reloadRun(os.Args[2:])
 	case "cfg-child":
